@@ -374,3 +374,150 @@ Print Assumptions C20_source_is_pseudo_version_eq.
 Theorem C20_source_semver_not_hex : forall v, semver_is_valid v = true -> src_allHex v = Ok false.
 Proof. exact src_semver_not_hex. Qed.
 Print Assumptions C20_source_semver_not_hex.
+From Coq Require Import ZArith.
+From GI Require Import Lib.GoSemHandler Proxy.SrcGlue Proxy.SrcSegFacts.
+
+(* ---- proxy.go: the server does I/O (net/http, os, archive/zip, par.Cache); the pure SEGMENTS between
+   its effects are translated on every run (Gen/ProxySrc.v) and the statements below are about the
+   translated definitions, for every input: they never panic (Panic = a Go run-time panic or a use
+   outside the modelled domain of a library call) and return exactly what the model computes.  What
+   stands between the segments is the hand-written glue of Proxy/SrcGlue.v: os.ReadDir and the range
+   loop of readModList; the call of readArchive between "route" and "serve" (= the model's stored
+   archive); the value of zipCache.Do (the loop over the archive around the translated member filter
+   and name, archive/zip failing on the names it refuses, the bytes of the zip an uninterpreted
+   function enc of the entry list); readArchive before and json.Unmarshal after the .info selection of
+   findHash.  The x/mod calls denote the Gallina x/mod of Proxy/XMod.v (xmod_oracles). *)
+
+(* readModList, the loop body: entry name and kind -> skipped / error / (path, version) appended *)
+Theorem C20_source_mod_entry_eq : forall short srv name isdir,
+  src_Server_readModList_entry srv (name, isdir) =
+  Ok (entry_outcome srv (mod_entry (xmod_oracles short) name isdir)).
+Proof. exact src_readModList_entry_eq. Qed.
+Print Assumptions C20_source_mod_entry_eq.
+
+(* readModList: the translated body folded over the directory entries computes the model's module
+   list, or ends with an error exactly when the model does *)
+Theorem C20_source_read_mod_list_eq : forall short dirname fh d,
+  match read_mod_list (xmod_oracles short) d with
+  | Some ml => src_readModList_loop (mkServer dirname [] fh) (dir_names d) = Ok (mkServer dirname ml fh, false)
+  | None => exists s, src_readModList_loop (mkServer dirname [] fh) (dir_names d) = Ok (s, true)
+  end.
+Proof. exact src_readModList_eq. Qed.
+Print Assumptions C20_source_read_mod_list_eq.
+
+(* handler up to the archive lookup: 404 for what route rejects, the list response, or the decoded
+   (path, extension, version after commit-hash resolution); findHash is the oracle the server value
+   carries, here the model's hash_of *)
+Theorem C20_source_route_eq : forall short d srv w url,
+  (forall m, srv_archives srv m = hash_of (xmod_oracles short) d (fst m) (snd m)) ->
+  src_Server_handler_route srv w url = Ok (route_outcome short d (srv_modList srv) w url).
+Proof. exact src_handler_route_eq. Qed.
+Print Assumptions C20_source_route_eq.
+
+(* handler after the archive lookup: nil archive -> 404; .info/.mod -> the stored entry or 404; zip ->
+   the cached bytes or 500; any other extension -> 404 *)
+Theorem C20_source_serve_eq : forall srv w url path ext vers a c,
+  src_Server_handler_serve srv w url path ext vers (as_archive a) c = Ok (serve_outcome w url ext a c).
+Proof. exact src_handler_serve_eq. Qed.
+Print Assumptions C20_source_serve_eq.
+
+(* the zip members: the translated filter and name, folded over the archive, are the model's entry list *)
+Theorem C20_source_zip_entries_eq : forall path vers files,
+  src_zip_entries path vers files = Ok (build_zip_entries path vers files).
+Proof. exact src_zip_entries_eq. Qed.
+Print Assumptions C20_source_zip_entries_eq.
+
+Theorem C20_source_zip_skip_eq : forall f,
+  src_Server_handler_zipskip f = Ok (if has_prefix hidden_prefix (fst f) then Continue tt else Normal tt).
+Proof. exact src_zipskip_eq. Qed.
+Print Assumptions C20_source_zip_skip_eq.
+
+Theorem C20_source_zip_name_eq : forall path vers f,
+  src_Server_handler_zipname path vers f = Ok (zip_name path vers (fst f)).
+Proof. exact src_zipname_eq. Qed.
+Print Assumptions C20_source_zip_name_eq.
+
+(* readArchive: nil when path or version cannot be escaped, else the three candidate file names
+   built from the model's archive name and filepath.Join *)
+Theorem C20_source_archive_names_eq : forall short srv path vers,
+  src_Server_readArchive_names srv path vers =
+  Ok (match archive_name (xmod_oracles short) path vers with
+      | None => Return None
+      | Some x =>
+          let name := TxtarWrite.Path.join (srv_dir srv) x in
+          Normal (name, name ++ suffix_txt, name ++ suffix_txtar)
+      end).
+Proof. exact src_readArchive_names_eq. Qed.
+Print Assumptions C20_source_archive_names_eq.
+
+(* the WalkDir callback: a file below the archive directory gets its name relative to it *)
+Theorem C20_source_arpath_eq : forall name rel,
+  src_Server_readArchive_arpath name (name ++ [path_sep] ++ rel) = Ok (Normal rel).
+Proof. exact src_readArchive_arpath_eq. Qed.
+Print Assumptions C20_source_arpath_eq.
+
+(* findHash: the translated selection of .info between readArchive and json.Unmarshal is the model's hash_of *)
+Theorem C20_source_find_hash_eq : forall short d m,
+  src_findHash short d m = Ok (hash_of (xmod_oracles short) d (fst m) (snd m)).
+Proof. exact src_findHash_eq. Qed.
+Print Assumptions C20_source_find_hash_eq.
+
+(* THE HANDLER: the translated segments composed in the order handler runs them leave in a fresh
+   ResponseWriter exactly the response of a freshly started model server, for every directory,
+   module list and URL path *)
+Theorem C20_source_handler_eq : forall short enc dirname d ml url,
+  src_handle short enc dirname d ml url = Ok (resp_of enc (respond (xmod_oracles short) d ml url)).
+Proof. exact src_handle_respond. Qed.
+Print Assumptions C20_source_handler_eq.
+
+(* C20_serves_stored on the composed segments, with computed side conditions *)
+Theorem C20_source_serves_stored : forall short enc dirname d ml p v a,
+  check_path_x p = true -> semver_is_valid v = true -> check_elem_x v = true -> mem_byte bang v = false ->
+  stored (xmod_oracles short) d p v = Some a ->
+  exists ep ev, escape_string p = Some ep /\ escape_string v = Some ev /\
+  src_handle short enc dirname d ml (file_url ep ev ext_info) =
+    Ok (resp_of enc (match find_file (entry_dot ++ ext_info) a with Some data => OkBytes data | None => NotFound end)) /\
+  src_handle short enc dirname d ml (file_url ep ev ext_mod) =
+    Ok (resp_of enc (match find_file (entry_dot ++ ext_mod) a with Some data => OkBytes data | None => NotFound end)) /\
+  src_handle short enc dirname d ml (file_url ep ev ext_zip) = Ok (resp_of enc (zip_response (build_zip p v a))).
+Proof. exact src_serves_stored. Qed.
+Print Assumptions C20_source_serves_stored.
+
+(* C20_list_exact on the composed segments *)
+Theorem C20_source_list_exact : forall short enc dirname d ml p ep,
+  path_ok (xmod_oracles short) p -> escape_string p = Some ep ->
+  src_handle short enc dirname d ml (list_url ep) =
+    Ok (resp_of enc (match listed (xmod_oracles short) ml p with
+                     | [] => NotFound
+                     | vs => OkBytes (flat_map (fun v => v ++ [x0a]) vs)
+                     end)) /\
+  (forall v, In v (listed (xmod_oracles short) ml p) <->
+     In (p, v) ml /\ is_pseudo (xmod_oracles short) v = false /\ module_check (xmod_oracles short) p v = true).
+Proof. exact src_list_exact. Qed.
+Print Assumptions C20_source_list_exact.
+
+(* C20_not_stored_404 on the composed segments: status 404 with the text of http.NotFound *)
+Theorem C20_source_not_stored_404 : forall short enc dirname d ml url,
+  let O := xmod_oracles short in
+  let nf := Ok (go_http_NotFound go_response_empty url) in
+  (route O url = RNotFound -> src_handle short enc dirname d ml url = nf) /\
+  (forall p v e, route O url = RFile p v e ->
+     bytes_eqb e ext_info = false -> bytes_eqb e ext_mod = false -> bytes_eqb e ext_zip = false ->
+     src_handle short enc dirname d ml url = nf) /\
+  (forall p v e, route O url = RFile p v e -> (forall v', stored O d p v' = None) ->
+     src_handle short enc dirname d ml url = nf) /\
+  (forall p v e, route O url = RFile p v e -> allhex v = false -> stored O d p v = None ->
+     src_handle short enc dirname d ml url = nf) /\
+  (forall p, route O url = RList p ->
+     (forall v, In (p, v) ml -> is_pseudo O v = true \/ module_check O p v = false) ->
+     src_handle short enc dirname d ml url = nf).
+Proof. exact src_not_stored_404. Qed.
+Print Assumptions C20_source_not_stored_404.
+
+(* C20_route_404_exact on the composed segments: the status differs from 404 exactly for the URLs the
+   store serves *)
+Theorem C20_source_route_404_exact : forall short enc dirname d ml url,
+  exists w, src_handle short enc dirname d ml url = Ok w /\
+    (rw_status w <> 404%Z <-> served_by (xmod_oracles short) d ml url).
+Proof. exact src_route_404_exact. Qed.
+Print Assumptions C20_source_route_404_exact.
